@@ -491,6 +491,10 @@ def generate(repo):
     defstmt("unset_inert", loop_body(model, consts, "unset_inert_moles", ["inert_moles"]), "unset_inert_moles(): loop body")
     defstmt("equal_body", whole_body(util, consts, "equal"), "equal(a, b, eps)")
 
+    # reactions(): body of the loop over the reaction steps
+    defstmt("reaction_step_body", loop_body(mains, consts, "reactions", ["run_reactions", "("]),
+            "reactions(): body of the loop over reaction steps")
+
     # full build (setup_pure_phases) versus reuse of the equation system (quick_setup): the PP unknown's fields
     t = prep.toks
     lo, hi = cp.find_function(t, "quick_setup")
